@@ -32,7 +32,7 @@ def oracle_roundtrip(ctx, cfg, rr):
         return
     for r in range(cfg.world):
         for rec in rr.res[r]['ops']:
-            if rec['op'][0] == 'l' and not rec.get('roundtrip_ok', True):
+            if rec['op'][0] in ('l', 'R') and not rec.get('roundtrip_ok', True):
                 return ctx.fail(f'rank {r}: state after load differs from the saved state (steps, hyper-parameters or factors)',
                                 cfg.describe(), 'roundtrip')
 
@@ -50,6 +50,28 @@ def gen_cfgs(ctx, n):
     c.hyper_changes = [{'damping': Fraction(1, 64)}]
     c.ops = ['f1', 's', 'f1', 's', 'h:0', 'f1', 's', 'l11', 'f1', 's', 'f1', 's']
     cfgs.append(c)
+    # checkpoints whose layers hold ONE factor only: a forward-only training pass (sanity forward) has folded a batch
+    # into A while G does not exist yet (oracle-only histories: the Lean state machine has no forward-only op)
+    for _ in range(max(4, n // 12)):
+        cfg = kfacsim.Config(rng, world=rng.choice([1, 2, 4]))
+        cfg.hyper_changes = []
+        it = ['f1'] * cfg.accum + ['s']
+        pre = rng.choice([[], it])
+        cfg.ops = pre + ['F', rng.choice(['l11', 'l11', 'l10'])] + it * rng.randrange(1, 4)
+        # the batch must already be folded into A when the state is taken (hook mode) and must not sit in an open
+        # bucket (a state_dict() while a factor is still queued in a bucket waits for a flush that only step() or
+        # memory_usage() perform — outside "at step boundaries", see DESIGN §5 C03)
+        cfg.hook = True
+        cfg.cap_mb = 0.0
+        cfgs.append(cfg)
+    # directed: a state kept in memory (not copied) while several factor updates go by, then rolled back to
+    for world in (1, 2, 4):
+        cfg = kfacsim.Config(rng, world=world)
+        cfg.hyper_changes = []
+        cfg.hyper['factor_update_steps'] = 1
+        it = ['f1'] * cfg.accum + ['s']
+        cfg.ops = it + ['k'] + it * rng.randrange(2, 4) + [rng.choice(['R11', 'R10'])] + it * 2
+        cfgs.append(cfg)
     while len(cfgs) < n:
         cfg = kfacsim.Config(rng, world=rng.choice([1, 2, 2, 3, 4, 4, 6]))
         cfg.hyper_changes = []
